@@ -183,14 +183,14 @@ def check_case(ctx, case):
     else:
         d = double(t)
         p = case['parent']
-        notes = model.Notes()
+        notes = model.Notes(null_policy=model.null_policies()[0])
         try:
             m = model.merge(p, d, notes)
         except model.Reject as e:
             m = None
             why = e.why
-        if notes.unspec:
-            return res.skip(notes.unspec[0])
+        if notes.unspec or notes.null_used:
+            return res.skip((notes.unspec or ['null child over an existing value'])[0])
         err, got = evaluate(ctx, res, [p, d])
         if res.verdict != 'held':
             return res
